@@ -213,6 +213,12 @@ class State:
         m = re.match(r"\w+\.\w+", text)
         if m:
             v += self.version.get(m.group(0), 0)
+        if v:
+            # a value read through a local that was bound in the same epoch (`t = x.a; t[i]`) is the value read
+            # directly (`x.a[i]`): the mark of the binding is dropped when nothing was written in between
+            m2 = re.fullmatch(rf"(.*)@{v}((?:\[[^\[\]]*\]|\.\w+)+)", text)
+            if m2 and _base(m2.group(1)) == b:
+                text = m2.group(1) + m2.group(2)
         return text if not v else f"{text}@{v}"
 
 
@@ -450,6 +456,20 @@ class Evaluator:
             self.ev(s.value, st)
             return
         if isinstance(s, ast.Assign):
+            c1 = s.value
+            if (len(s.targets) == 1 and isinstance(s.targets[0], (ast.Attribute, ast.Name)) and isinstance(c1, ast.Call) and isinstance(c1.func, ast.Name)
+                    and c1.func.id in ("max", "min") and len(c1.args) == 2 and not c1.keywords and c1.func.id not in st.env):
+                # t = max(t, v)  is  if v > t: t = v   (likewise min / <)
+                tt1 = u(s.targets[0])
+                others = [a for a in c1.args if u(a) != tt1]
+                if len(others) == 1 and not any(isinstance(n, (ast.Call, ast.NamedExpr)) for n in ast.walk(others[0])):
+                    cmp_ = ast.Compare(left=others[0], ops=[ast.Gt() if c1.func.id == "max" else ast.Lt()], comparators=[ast.copy_location(type(s.targets[0])(**{**{f: getattr(s.targets[0], f) for f in s.targets[0]._fields}, "ctx": ast.Load()}), s.targets[0])])
+                    body = ast.Assign(targets=s.targets, value=others[0])
+                    if_ = ast.If(test=cmp_, body=[body], orelse=[])
+                    ast.fix_missing_locations(ast.copy_location(if_, s))
+                    ast.copy_location(body, s)
+                    ast.fix_missing_locations(body)
+                    return self.stmt(if_, st)
             v = self.ev(s.value, st)
             for t in s.targets:
                 self.assign(t, v, st)
@@ -895,6 +915,10 @@ class Evaluator:
             tt = self.subst_text(e, st)
             if tt in st.mem:
                 return st.mem[tt]
+            if isinstance(e, ast.Attribute) and isinstance(e.value, ast.Name) and (e.value.id in ("self", "cls") or e.value.id not in st.env):
+                kc = _class_constant(self.fi, e.value.id, e.attr)
+                if kc is not None:
+                    return self.ev(kc, st)  # a class-level table of constants is its literal
             if isinstance(e, ast.Subscript):
                 base = self.ev(e.value, st)
                 if isinstance(base, (list, tuple)) and not isinstance(e.slice, ast.Slice):
@@ -1015,6 +1039,15 @@ class Evaluator:
         raise AnalysisError(f"decision engine: unsupported expression {type(e).__name__}: {u(e)[:80]}")
 
     def call(self, c: ast.Call, st, as_stmt=False):
+        if len(c.args) >= 1 and isinstance(c.args[0], ast.GeneratorExp) and u(c.func) in _ITER_CONSUMERS and not any(isinstance(n, ast.NamedExpr) for n in ast.walk(c.args[0])):
+            # a consumer that only iterates its argument: f(genexp) == f([listcomp])
+            lc0 = ast.copy_location(ast.ListComp(elt=c.args[0].elt, generators=c.args[0].generators), c.args[0])
+            c = ast.copy_location(ast.Call(func=c.func, args=[lc0, *c.args[1:]], keywords=c.keywords), c)
+        if isinstance(c.func, ast.Attribute) and isinstance(c.func.value, ast.NamedExpr) and isinstance(c.func.value.target, ast.Name):
+            # `(x := e).m(...)` binds x and calls x.m(...)
+            self.ev(c.func.value, st)
+            nm = ast.copy_location(ast.Name(id=c.func.value.target.id, ctx=ast.Load()), c.func.value)
+            c = ast.copy_location(ast.Call(func=ast.copy_location(ast.Attribute(value=nm, attr=c.func.attr, ctx=ast.Load()), c.func), args=c.args, keywords=c.keywords), c)
         if isinstance(c.func, ast.Attribute):
             ftext = self.subst_text(c.func.value, st) + "." + c.func.attr
         else:
@@ -1548,6 +1581,8 @@ class Evaluator:
                         hit = True
                         break
                 return (not hit) if neg else hit
+        if name == "In" and isinstance(r, tuple) and not _has_sym(r) and all(isinstance(c, (str, int, float)) or c is None for c in r):
+            rt = vtext(list(r))  # membership in a tuple or in a list of the same constants is the same test
         val = st.atom(f"{lt} {name} {rt}")
         return (not val) if neg else val
 
@@ -1633,6 +1668,48 @@ def _module_constant(fi, name):
                         ok = False
         _MODCONST[key] = vals[0] if ok else None
     return _MODCONST[key]
+
+
+_CLSCONST: dict = {}
+_ITER_CONSUMERS = {"sum", "math.fsum", "fsum", "max", "min", "sorted", "set", "frozenset", "tuple"}
+
+
+def _class_constant(fi, recv, attr):
+    """the literal bound to an upper-case class-level name `C._NAME` (or `self._NAME` / `cls._NAME` in a method of
+    C or a subclass) that the class body assigns once and nothing in the package writes, else None"""
+    if fi is None or not re.fullmatch(r"_{0,2}[A-Z][A-Z0-9_]*", attr):
+        return None
+    repo = fi.module.repo
+    if recv in ("self", "cls"):
+        if fi.cls is None:
+            return None
+        owners = [c for c in fi.cls.mro() if attr in c.class_attrs][:1]
+    else:
+        owners = [c for m in repo.modules.values() for c in m.classes.values() if c.name == recv and attr in c.class_attrs]
+    if len(owners) != 1:
+        return None
+    ci = owners[0]
+    key = (repo.root, ci.module.name, ci.qualname or ci.name, attr)
+    if key not in _CLSCONST:
+        val = ci.class_attrs[attr]
+        n_assign = sum(1 for s2 in ci.node.body for t in (s2.targets if isinstance(s2, ast.Assign) else [s2.target] if isinstance(s2, (ast.AnnAssign, ast.AugAssign)) else []) if isinstance(t, ast.Name) and t.id == attr)
+        ok = n_assign == 1 and isinstance(val, (ast.Dict, ast.Tuple, ast.List, ast.Set))
+        if ok:
+            for n in ast.walk(val):
+                if isinstance(n, (ast.Call, ast.Lambda, ast.ListComp, ast.DictComp, ast.SetComp, ast.GeneratorExp)):
+                    ok = False
+        if ok:
+            for m in repo.modules.values():
+                for n in ast.walk(m.tree):
+                    if isinstance(n, ast.Attribute) and n.attr == attr:
+                        if isinstance(n.ctx, (ast.Store, ast.Del)):
+                            ok = False
+                    if isinstance(n, ast.Call) and isinstance(n.func, ast.Attribute) and isinstance(n.func.value, ast.Attribute) and n.func.value.attr == attr and n.func.attr in ("append", "extend", "update", "pop", "clear", "add", "remove", "setdefault", "insert", "sort", "reverse", "popitem", "discard"):
+                        ok = False
+                    if isinstance(n, ast.Subscript) and isinstance(n.value, ast.Attribute) and n.value.attr == attr and isinstance(n.ctx, (ast.Store, ast.Del)):
+                        ok = False
+        _CLSCONST[key] = val if ok else None
+    return _CLSCONST[key]
 
 
 def _is_class_name(name, fi):
